@@ -563,20 +563,25 @@ func (c *Checked) checkProvenance(i int, op Op, res *OpResult, evs []Event) {
 				c.checkGroupArg(i, who, cons, p, a, builtAtCall, builtNow, minted, f, ai, lp)
 				continue
 			}
-			src := m.Producer(cons, p.Key)
+			srcs := m.Sources(cons, p.Key)
+			src := srcs[0]
+			if len(srcs) > 1 {
+				c.probe("arg_decorator_maybe_on_stack")
+			}
 			if src.Dec != nil {
 				c.probe("arg_from_decorator")
 			}
 			if a.Zero {
+				last := srcs[len(srcs)-1]
 				switch {
 				case !p.Opt:
 					c.viol(i, "zero-for-required", who+": received the zero value", "C01", "C04")
 				case src.Dec != nil:
 					// decorated optional keys: outside the claim
-				case src.Ctor != nil:
+				case last.Ctor != nil:
 					av := m.newAvail()
-					if av.ctorAvail(src.Ctor) == yes {
-						c.viol(i, "zero-for-available-optional", fmt.Sprintf("%s: zero value although f%d provides it and is available", who, src.Ctor.Fn), "C04", "C01")
+					if av.ctorAvail(last.Ctor) == yes {
+						c.viol(i, "zero-for-available-optional", fmt.Sprintf("%s: zero value although f%d provides it and is available", who, last.Ctor.Fn), "C04", "C01")
 					} else {
 						c.probe("optional_over_gap")
 					}
@@ -593,11 +598,18 @@ func (c *Checked) checkProvenance(i int, op Op, res *OpResult, evs []Event) {
 			var props []string
 			class := ""
 			detail := ""
+			match := false
+			for _, s := range srcs {
+				if !s.None() && s.Fn() == t.Fn {
+					match = true
+					src = s
+				}
+			}
 			switch {
-			case src.None():
+			case src.None() && len(srcs) == 1:
 				class, props = "value-without-provider", []string{"C01", "C08", "C04"}
 				detail = fmt.Sprintf("%s: received a value of f%d although no provider is visible", who, t.Fn)
-			case t.Fn != src.Fn():
+			case !match:
 				class, props = "wrong-producer", []string{"C01"}
 				detail = fmt.Sprintf("%s: expected the value of f%d, received the value of f%d (leaf %d)", who, src.Fn(), t.Fn, t.Leaf)
 				_, actualIsDec := m.DByFn[t.Fn]
@@ -654,20 +666,35 @@ func (c *Checked) checkGroupArg(i int, who string, cons Consumer, p LeafParam, a
 	ds := m.DecsOnPath(cons.Scope, p.Key, cons.Self)
 	if len(ds) > 0 {
 		c.probe("group_decorated")
-		d := ds[0]
-		var want []int64
-		for _, li := range leafFor(d.LR, p.Key) {
-			mm := minted(d.Fn)
-			if li < len(mm) {
-				want = append(want, mm[li]...)
+		var first []int64
+		definitive := false
+		for di, d := range ds {
+			var want []int64
+			for _, li := range leafFor(d.LR, p.Key) {
+				mm := minted(d.Fn)
+				if li < len(mm) {
+					want = append(want, mm[li]...)
+				}
+			}
+			sort.Slice(want, func(x, y int) bool { return want[x] < want[y] })
+			if di == 0 {
+				first = want
+			}
+			if eqI64(got, want) {
+				return
+			}
+			if !m.MayBeOnStack(d, cons.Fn) {
+				definitive = true
+				break
 			}
 		}
-		sort.Slice(want, func(x, y int) bool { return want[x] < want[y] })
-		if !eqI64(got, want) {
-			props := []string{"C12", "C01"}
-			c.viol(i, "wrong-decorated-group", fmt.Sprintf("%s: expected the slice returned by decorator f%d %v, received %s", who, d.Fn, want, c.describeSerials(got)), props...)
+		if definitive {
+			c.viol(i, "wrong-decorated-group", fmt.Sprintf("%s: expected the slice returned by decorator f%d %v, received %s", who, ds[0].Fn, first, c.describeSerials(got)), "C12", "C01")
+			return
 		}
-		return
+		c.probe("group_decorator_maybe_on_stack")
+		// every decorator on the path may be on the stack: the undecorated
+		// members are acceptable too (checked below)
 	}
 	feeders := m.Feeders(cons.Scope, p.Key)
 	members := func(n *MCtor) []int64 {
@@ -780,7 +807,7 @@ func eqI64(a, b []int64) bool {
 func (c *Checked) checkInvokeModel(i int, op Op, res *OpResult, evs []Event) {
 	m := c.M
 	inv := &c.H.Funcs[op.Fn]
-	cons := Consumer{Scope: op.Scope}
+	cons := Consumer{Scope: op.Scope, Fn: -1}
 	lp := inv.LeafParams()
 	cl := m.ClosureOf(cons, lp)
 	executed := map[int]bool{}
@@ -797,7 +824,7 @@ func (c *Checked) checkInvokeModel(i int, op Op, res *OpResult, evs []Event) {
 				c.viol(i, "executed-outside-closure", fmt.Sprintf("%s f%d ran but is not in the dependency closure of Invoke f%d from s%d", c.H.Funcs[e.Fn].Role, e.Fn, inv.ID, op.Scope), "C03", "C11")
 			}
 			// C04: no constructor runs whose own direct dependencies are unavailable
-			if n, ok := m.ByFn[e.Fn]; ok && m.MissingDirect(Consumer{Scope: n.Origin}, n.LP) {
+			if n, ok := m.ByFn[e.Fn]; ok && m.MissingDirect(Consumer{Scope: n.Origin, Fn: n.Fn}, n.LP) {
 				c.viol(i, "ran-with-missing-direct-dependency", fmt.Sprintf("ctor f%d executed although a required direct dependency has no provider", e.Fn), "C04")
 			}
 		}
@@ -887,7 +914,7 @@ func (c *Checked) skippedOptional(cons Consumer, lp []LeafParam, fn int) bool {
 		}
 		seenC[n] = true
 		need[n.Fn] = true
-		params(Consumer{Scope: n.Origin}, n.LP)
+		params(Consumer{Scope: n.Origin, Fn: n.Fn}, n.LP)
 	}
 	params = func(cc Consumer, lp []LeafParam) {
 		for _, p := range lp {
